@@ -71,6 +71,7 @@ def gen(rng, tier):
     base["max_nodes"] = None
     base["user"] = {}
     base["kind"] = "c19"
+    base["inherit_env"] = rng.random() < 0.3
     return scenario.normalize(base)
 
 
